@@ -85,7 +85,7 @@ def main():
             sys.exit(2)
         if a.replay:
             # findings that are not harness requests (a client program, a table entry): replayed by re-running the property's own search
-            nonreq = [q for q in fixed_requests if q.startswith(("probe ", "table entry ", "chi-square "))]
+            nonreq = [q for q in fixed_requests if q.startswith(("probe ", "table entry ", "chi-square ", "enum32 "))]
             if nonreq and hasattr(mod, "extra"):
                 for item in mod.extra(binary, build, tier, rng.fork("extra" + build)):
                     if item.pop("kind") == "oracle" and item["request"] in nonreq:
